@@ -84,15 +84,31 @@ def GoodE (e : Expr) : Prop := ∀ (m : Mode) (b : Nat) (σ : BState), b < σ.le
     | .val => GoodV σ b (bld e .val b σ).2.1 (bld e .val b σ).2.2
     | .br t f => Touch σ b (bld e (.br t f) b σ).2.2
 
+/-- storing an operand in a temporary keeps the current block open -/
+theorem preBind_good {σ σ' : BState} {b b' : Nat} (hb : b < σ.len) (h : GoodV σ b b' σ') (c : Bool) (e : Expr) :
+    GoodV σ b b' (preBind c e b' σ').2 := by
+  cases c with
+  | false => exact h
+  | true =>
+    simp only [preBind, if_true, bindTmp]
+    have h1 : GoodV σ b b' (freshTmp σ').2 := GoodV.step hb h (touch_freshTmp _ _) h.opn
+    exact GoodV.step hb h1 (touch_addStmt _ _ _) (by
+      rw [blk_addStmt_same _ _ _ (by simpa using h.lt)]; exact h.opn)
+
+theorem preBind_tmp (c : Bool) (e : Expr) (b : Nat) (σ : BState) : σ.nextTmp ≤ (preBind c e b σ).2.nextTmp := by
+  cases c <;> simp [preBind, bindTmp]
+
 /-- the state after the two comparisons of a chained comparison (shape of `visit_Compare`) -/
 def cmp2Body (o1 o2 : CmpOp) (l mid r : Expr) (t' f' b : Nat) (σp : BState) : BState :=
   let x := newBB σp
   let a := bld l .val b x.2
-  let c := bld mid .val a.2.1 a.2.2
-  let σ1 := branchOn c.2.1 (.bi (.cmp o1) a.1 c.1) x.1 f' c.2.2
-  let c' := bld mid .val x.1 { σ1 with bad := σ1.bad || lifts mid || negNeg mid }
-  let d := bld r .val c'.2.1 c'.2.2
-  branchOn d.2.1 (.bi (.cmp o2) c'.1 d.1) t' f' d.2.2
+  let p := preBind ((lifts mid || !atomicSyn mid) && needBind a.1 mid) a.1 a.2.1 a.2.2
+  let c := bld mid .val a.2.1 p.2
+  let pm := preBind (!stable c.1 r) c.1 c.2.1 c.2.2
+  let σ1 := branchOn c.2.1 (.bi (.cmp o1) p.1 pm.1) x.1 f' pm.2
+  let p2 := preBind (lifts r && needBind pm.1 r) pm.1 x.1 σ1
+  let d := bld r .val x.1 p2.2
+  branchOn d.2.1 (.bi (.cmp o2) p2.1 d.1) t' f' d.2.2
 
 theorem cmp2_body {o1 o2 : CmpOp} {l mid r : Expr} (hl : GoodE l) (hm : GoodE mid) (hr : GoodE r)
     {σp : BState} {b : Nat} (hb : b < σp.len) (ho : (σp.blk b).succs = []) (t' f' : Nat) :
@@ -101,30 +117,31 @@ theorem cmp2_body {o1 o2 : CmpOp} {l mid r : Expr} (hl : GoodE l) (hm : GoodE mi
   have hb' : b < (newBB σp).2.len := by simp; omega
   have ho' : ((newBB σp).2.blk b).succs = [] := by rw [blk_newBB_old σp b hb]; exact ho
   have ga := hl .val b _ hb' ho'
-  have gc := hm .val _ _ ga.lt ga.opn
-  have gac := GoodV.trans hb' ga gc
   generalize bld l .val b (newBB σp).2 = a at *
-  generalize bld mid .val a.2.1 a.2.2 = c at *
-  have t1 : Touch (newBB σp).2 b (branchOn c.2.1 (.bi (.cmp o1) a.1 c.1) σp.len f' c.2.2) :=
-    gac.touch.trans (touch_branchOn _ _ _ _ _) hb' gac.cur
-  generalize hσ1 : branchOn c.2.1 (.bi (.cmp o1) a.1 c.1) σp.len f' c.2.2 = σ1 at *
+  have gp := preBind_good hb' ga ((lifts mid || !atomicSyn mid) && needBind a.1 mid) a.1
+  generalize preBind ((lifts mid || !atomicSyn mid) && needBind a.1 mid) a.1 a.2.1 a.2.2 = p at *
+  have gc := hm .val _ _ gp.lt gp.opn
+  have gac := GoodV.trans hb' gp gc
+  generalize bld mid .val a.2.1 p.2 = c at *
+  have gm := preBind_good hb' gac (!stable c.1 r) c.1
+  generalize preBind (!stable c.1 r) c.1 c.2.1 c.2.2 = pm at *
+  have t1 : Touch (newBB σp).2 b (branchOn c.2.1 (.bi (.cmp o1) p.1 pm.1) σp.len f' pm.2) :=
+    gm.touch.trans (touch_branchOn _ _ _ _ _) hb' gm.cur
+  generalize hσ1 : branchOn c.2.1 (.bi (.cmp o1) p.1 pm.1) σp.len f' pm.2 = σ1 at *
   have hl1 := t1.len
   simp only [len_newBB] at hl1
   have hxo : (σ1.blk σp.len).succs = [] := by
     rw [t1.frame _ (by simp) (by omega), blk_newBB_new]
-  have gc' := hm .val σp.len { σ1 with bad := σ1.bad || lifts mid || negNeg mid } (by show σp.len < σ1.len; omega) hxo
-  have gd := hr .val _ _ gc'.lt gc'.opn
-  have gcd := GoodV.trans (σ := { σ1 with bad := σ1.bad || lifts mid || negNeg mid }) (by show σp.len < σ1.len; omega) gc' gd
-  generalize bld mid .val σp.len { σ1 with bad := σ1.bad || lifts mid || negNeg mid } = c' at *
-  generalize bld r .val c'.2.1 c'.2.2 = d at *
-  have t2 : Touch { σ1 with bad := σ1.bad || lifts mid || negNeg mid } σp.len (branchOn d.2.1 (.bi (.cmp o2) c'.1 d.1) t' f' d.2.2) :=
-    gcd.touch.trans (touch_branchOn _ _ _ _ _) (by show σp.len < σ1.len; omega) gcd.cur
+  have g0 : GoodV σ1 σp.len σp.len σ1 := GoodV.refl (by omega) hxo
+  have gp2 := preBind_good (σ := σ1) (by omega) g0 (lifts r && needBind pm.1 r) pm.1
+  generalize preBind (lifts r && needBind pm.1 r) pm.1 σp.len σ1 = p2 at *
+  have gd := hr .val _ _ gp2.lt gp2.opn
+  have gcd := GoodV.trans (σ := σ1) (by omega) gp2 gd
+  generalize bld r .val σp.len p2.2 = d at *
+  have t2 : Touch σ1 σp.len (branchOn d.2.1 (.bi (.cmp o2) p2.1 d.1) t' f' d.2.2) :=
+    gcd.touch.trans (touch_branchOn _ _ _ _ _) (by omega) gcd.cur
   have hl2 := t2.len
-  have t3 : Touch σ1 σp.len (branchOn d.2.1 (.bi (.cmp o2) c'.1 d.1) t' f' d.2.2) :=
-    ⟨t2.len, t2.tmp, t2.frame, t2.pre⟩
-  refine ⟨((touch_newBB σp b).trans t1 hb (Or.inl rfl)).trans t3 hb (Or.inr (Nat.le_refl _)), ?_⟩
-  have : σ1.len ≤ (branchOn d.2.1 (.bi (.cmp o2) c'.1 d.1) t' f' d.2.2).len := t2.len
-  omega
+  refine ⟨((touch_newBB σp b).trans t1 hb (Or.inl rfl)).trans t2 hb (Or.inr (Nat.le_refl _)), by omega⟩
 
 theorem ite_pre {c : Expr} (hc : GoodE c) {σ : BState} {b : Nat} (hb : b < σ.len) (ho : (σ.blk b).succs = []) :
     let σ1 := (bld c (.br σ.len (σ.len + 1)) b (newBB (newBB σ).2).2).2.2
@@ -254,8 +271,9 @@ theorem bld_good (e : Expr) : ∀ (m : Mode) (b : Nat) (σ : BState), b < σ.len
   | bi o l r ihl ihr =>
     intro m b σ hb ho
     have h1 := ihl .val b σ hb ho
-    have h2 := ihr .val _ _ h1.lt h1.opn
-    have h12 := GoodV.trans hb h1 h2
+    have hp := preBind_good hb h1 (lifts r && needBind (bld l .val b σ).1 r) (bld l .val b σ).1
+    have h2 := ihr .val _ _ hp.lt hp.opn
+    have h12 := GoodV.trans hb hp h2
     cases m with
     | val => simp only [bld, finish]; exact h12
     | br t f => simp only [bld, finish]; exact h12.touch.trans (touch_branchOn _ _ _ _ _) hb h12.cur
@@ -333,61 +351,89 @@ theorem scPost_val_fst (t f b : Nat) (σ : BState) : (scPost .val t f b σ).1 = 
 theorem scPost_val_tmp (t f b : Nat) (σ : BState) : (scPost .val t f b σ).2.2.nextTmp = σ.nextTmp + 1 := by
   simp [scPost, newBB2]
 
-/-- facts about the residual expression of a value-mode build -/
+theorem preBind_fst (c : Bool) (e : Expr) (b : Nat) (σ : BState) :
+    (preBind c e b σ).1 = e ∨ ((preBind c e b σ).1 = .var (.tmp σ.nextTmp) ∧ (preBind c e b σ).2.nextTmp = σ.nextTmp + 1) := by
+  cases c <;> simp [preBind, bindTmp]
+
+/-- facts about the residual expression of a value-mode build: it contains no lifted construct, makes no
+    call unless the source does, and its variables are variables of the source or temporaries already drawn -/
 theorem bld_residual (e : Expr) : ∀ (b : Nat) (σ : BState), b < σ.len → (σ.blk b).succs = [] →
-    lifts (bld e .val b σ).1 = false ∧ anyCall (bld e .val b σ).1 = resCalls e ∧
-    ∀ x ∈ vars (bld e .val b σ).1, x ∈ resReads e ∨ ∃ k, x = .tmp k ∧ k < (bld e .val b σ).2.2.nextTmp := by
+    lifts (bld e .val b σ).1 = false ∧ (anyCall e = false → anyCall (bld e .val b σ).1 = false) ∧
+    ∀ x ∈ vars (bld e .val b σ).1, x ∈ vars e ∨ ∃ k, x = .tmp k ∧ k < (bld e .val b σ).2.2.nextTmp := by
   induction e with
-  | var x => intro b σ _ _; simp [bld, finish, lifts, anyCall, resCalls, vars, resReads]
-  | num n => intro b σ _ _; simp [bld, finish, lifts, anyCall, resCalls, vars]
-  | bool v => intro b σ _ _; simp [bld, lifts, anyCall, resCalls, vars]
-  | call0 g => intro b σ _ _; simp [bld, finish, lifts, anyCall, resCalls, vars]
+  | var x => intro b σ _ _; simp [bld, finish, lifts, anyCall, vars]
+  | num n => intro b σ _ _; simp [bld, finish, lifts, anyCall, vars]
+  | bool v => intro b σ _ _; simp [bld, lifts, anyCall, vars]
+  | call0 g => intro b σ _ _; simp [bld, finish, lifts, anyCall, vars]
   | un o e ih =>
     intro b σ hb ho
     obtain ⟨h1, h2, h3⟩ := ih b σ hb ho
     cases hf : foldNeg o e with
     | some n =>
       obtain ⟨rfl, rfl⟩ := foldNeg_some hf
-      simp [bld, foldNeg, finish, lifts, anyCall, resCalls, vars]
+      simp [bld, foldNeg, finish, lifts, anyCall, vars]
     | none =>
       have : bld (.un o e) .val b σ = (.un o (bld e .val b σ).1, (bld e .val b σ).2.1, (bld e .val b σ).2.2) := by
         cases o <;> simp only [bld, hf, finish]
       rw [this]
       refine ⟨h1, ?_, h3⟩
-      simp only [anyCall, resCalls, h2]
+      intro hc
+      simp only [anyCall, Bool.or_eq_false_iff] at hc ⊢
+      exact ⟨hc.1, h2 hc.2⟩
   | bi o l r ihl ihr =>
     intro b σ hb ho
-    have ga := bld_good l .val b σ hb ho
+    have ga : GoodV σ b (bld l .val b σ).2.1 (bld l .val b σ).2.2 := bld_good l .val b σ hb ho
     obtain ⟨h1, h2, h3⟩ := ihl b σ hb ho
-    obtain ⟨g1, g2, g3⟩ := ihr _ _ ga.lt ga.opn
-    have gc := (bld_good r .val _ _ ga.lt ga.opn).touch.tmp
-    simp only [bld, finish, lifts, anyCall, resCalls, vars, resReads, List.mem_append, h1, g1, h2, g2, Bool.or_self, true_and]
-    intro x hx
-    rcases hx with hx | hx
-    · rcases h3 x hx with h | ⟨k, rfl, hk⟩
-      · exact Or.inl (Or.inl h)
-      · exact Or.inr ⟨k, rfl, by omega⟩
-    · rcases g3 x hx with h | ⟨k, rfl, hk⟩
-      · exact Or.inl (Or.inr h)
-      · exact Or.inr ⟨k, rfl, hk⟩
-  | walrus x e ih => intro b σ _ _; simp [bld, finish, lifts, anyCall, resCalls, vars, resReads]
+    have gp := preBind_good hb ga (lifts r && needBind (bld l .val b σ).1 r) (bld l .val b σ).1
+    have hpt := preBind_tmp (lifts r && needBind (bld l .val b σ).1 r) (bld l .val b σ).1 (bld l .val b σ).2.1 (bld l .val b σ).2.2
+    have hpf := preBind_fst (lifts r && needBind (bld l .val b σ).1 r) (bld l .val b σ).1 (bld l .val b σ).2.1 (bld l .val b σ).2.2
+    simp only [bld, finish]
+    generalize preBind (lifts r && needBind (bld l .val b σ).1 r) (bld l .val b σ).1 (bld l .val b σ).2.1 (bld l .val b σ).2.2 = p at *
+    obtain ⟨g1, g2, g3⟩ := ihr _ _ gp.lt gp.opn
+    have gc := (bld_good r .val _ _ gp.lt gp.opn : GoodV _ _ _ _).touch.tmp
+    refine ⟨?_, ?_, ?_⟩
+    · simp only [lifts, g1, Bool.or_false]
+      rcases hpf with h | ⟨h, _⟩ <;> rw [h]
+      · exact h1
+      · rfl
+    · intro hc
+      simp only [anyCall, Bool.or_eq_false_iff] at hc ⊢
+      refine ⟨⟨hc.1.1, ?_⟩, g2 hc.2⟩
+      rcases hpf with h | ⟨h, _⟩ <;> rw [h]
+      · exact h2 hc.1.2
+      · rfl
+    · intro x hx
+      simp only [vars, List.mem_append] at hx ⊢
+      rcases hx with hx | hx
+      · rcases hpf with h | ⟨h, h'⟩
+        · rw [h] at hx
+          rcases h3 x hx with h4 | ⟨k, rfl, hk⟩
+          · exact Or.inl (Or.inl h4)
+          · exact Or.inr ⟨k, rfl, by omega⟩
+        · rw [h] at hx
+          simp only [vars, List.mem_singleton] at hx
+          exact Or.inr ⟨_, hx, by omega⟩
+      · rcases g3 x hx with h4 | ⟨k, rfl, hk⟩
+        · exact Or.inl (Or.inr h4)
+        · exact Or.inr ⟨k, rfl, hk⟩
+  | walrus x e ih => intro b σ _ _; simp [bld, finish, lifts, anyCall, vars]
   | and l r _ _ =>
     intro b σ _ _
-    simp only [bld, scPost_val_fst, scPost_val_tmp, lifts, anyCall, resCalls, vars, List.mem_singleton, true_and]
-    intro x hx; exact Or.inr ⟨_, hx, Nat.lt_succ_self _⟩
+    simp only [bld, scPost_val_fst, scPost_val_tmp, lifts, anyCall, vars, List.mem_singleton, true_and]
+    exact ⟨fun _ => trivial, fun x hx => Or.inr ⟨_, hx, Nat.lt_succ_self _⟩⟩
   | or l r _ _ =>
     intro b σ _ _
-    simp only [bld, scPost_val_fst, scPost_val_tmp, lifts, anyCall, resCalls, vars, List.mem_singleton, true_and]
-    intro x hx; exact Or.inr ⟨_, hx, Nat.lt_succ_self _⟩
+    simp only [bld, scPost_val_fst, scPost_val_tmp, lifts, anyCall, vars, List.mem_singleton, true_and]
+    exact ⟨fun _ => trivial, fun x hx => Or.inr ⟨_, hx, Nat.lt_succ_self _⟩⟩
   | cmp2 o1 o2 l m r _ _ _ =>
     intro b σ _ _
-    simp only [bld, scPost_val_fst, scPost_val_tmp, lifts, anyCall, resCalls, vars, List.mem_singleton, true_and]
-    intro x hx; exact Or.inr ⟨_, hx, Nat.lt_succ_self _⟩
+    simp only [bld, scPost_val_fst, scPost_val_tmp, lifts, anyCall, vars, List.mem_singleton, true_and]
+    exact ⟨fun _ => trivial, fun x hx => Or.inr ⟨_, hx, Nat.lt_succ_self _⟩⟩
   | ite c x y _ _ _ =>
     intro b σ _ _
-    simp only [bld, newBB2, lifts, anyCall, resCalls, vars, List.mem_singleton, true_and, tmp_link, tmp_newBB,
+    simp only [bld, newBB2, lifts, anyCall, vars, List.mem_singleton, true_and, tmp_link, tmp_newBB,
       tmp_addStmt, tmp_freshTmp, fst_freshTmp]
-    intro x hx; exact Or.inr ⟨_, hx, Nat.lt_succ_self _⟩
+    exact ⟨fun _ => trivial, fun x hx => Or.inr ⟨_, hx, Nat.lt_succ_self _⟩⟩
 
 /-- an expression without lifted constructs is built without emitting anything -/
 theorem bld_nolift (e : Expr) (h : lifts e = false) : ∀ (b : Nat) (σ : BState),
@@ -417,7 +463,7 @@ theorem bld_nolift (e : Expr) (h : lifts e = false) : ∀ (b : Nat) (σ : BState
     have e1 : (bld l .val b σ).2.1 = b := congrArg Prod.fst h1
     have e2 : (bld l .val b σ).2.2 = σ := congrArg Prod.snd h1
     obtain ⟨g1, g2⟩ := ihr h.2 b σ
-    simp only [bld, finish, e1, e2]
+    simp only [bld, finish, h.2, Bool.false_and, preBind, Bool.false_eq_true, if_false, e1, e2]
     refine ⟨g1, ?_⟩
     intro env s; simp only [eval, h2, g2]
   | _ => simp [lifts] at h
